@@ -48,6 +48,31 @@ const HETERO: &[&str] = &[
     "[1e1000, -1e1000, 0, -0]", "[\"b\",\"a\",\"é\",\"B\"]", "[[], [[]], [[[]]]]", "[{\"a\":1,\"b\":2},{\"b\":2,\"a\":1}]", "[null]", "[]",
 ];
 
+
+/// Every builtin keyword the parser knows, except syntax words, file I/O (`load`) and the
+/// ones that do not terminate or blow up by design with arbitrary arguments
+/// (`repeat`, `while`, `until`, `recurse(f)`, `range`, `combinations`).
+const CENSUS: &[&str] = &[
+    "IN", "INDEX", "abs", "acos", "acosh", "add", "all", "anchor", "any", "arrays", "ascii_downcase", "ascii_upcase", "asin", "asinh",
+    "at_offset", "at_position", "atan", "atan2", "atanh", "booleans", "bsearch", "builtins", "capture", "ceil", "column", "contains", "cos",
+    "cosh", "debug", "del", "delpaths", "di", "document_index", "empty", "endswith", "env", "error", "exp", "exp10", "exp2", "explode", "fabs",
+    "fileIndex", "file_index", "finites", "first", "flatten", "floor", "from_entries", "from_unix", "fromdate", "fromdateiso8601", "fromjson",
+    "fromjsonstream", "fromstream", "getpath", "gmtime", "group_by", "gsub", "halt", "halt_error", "has", "implode", "in", "index", "indices",
+    "infinite", "input", "input_line_number", "inputs", "inside", "isarray", "isboolean", "isempty", "isfinite", "isinfinite", "isnan",
+    "isnormal", "isnull", "isnumber", "isobject", "isstring", "isvalid", "iterables", "join", "key", "keys", "keys_unsorted", "kind", "last",
+    "leaf_paths", "length", "limit", "line", "line_comment", "localtime", "log", "log10", "log2", "ltrim", "ltrimstr", "map", "map_values",
+    "match", "max", "max_by", "min", "min_by", "mktime", "nan", "normals", "not", "now", "nth", "null", "nulls", "numbers",
+    "objects", "omit", "parent", "path", "paths", "pick", "pivot", "pow", "reverse", "rindex", "round", "rtrim",
+    "rtrimstr", "scalars", "scan", "select", "setpath", "shuffle", "sin", "sinh", "skip", "sort", "sort_by", "split", "split_doc", "splits",
+    "sqrt", "startswith", "stderr", "strenv", "strftime", "strings", "strptime", "style", "sub", "tag", "tan", "tanh", "test", "to_entries",
+    "to_unix", "toboolean", "todate", "todateiso8601", "tojson", "tojsonstream", "tonumber", "tostream", "tostring", "transpose", "trim",
+    "trunc", "truncate_stream", "type", "tz", "unique", "unique_by", "utf8bytelength", "values", "walk", "with_entries", "significand",
+    "drem", "ldexp", "scalb", "scalbln", "nearbyint", "logb", "gamma", "lgamma", "tgamma", "frexp", "modf", "cbrt", "expm1", "log1p", "ceil",
+    "getpath", "splits", "ascii", "tojson", "toarray", "have_literal_numbers", "have_decnum", "trimstr", "ltrimstr", "input_filename",
+    "get_search_list", "error", "add", "limit", "first", "getpath", "env", "halt_error", "abs", "pick", "debug", "scan", "splits", "@base32", "@base32d",
+    "@base64", "@base64d", "@csv", "@tsv", "@html", "@json", "@sh", "@text", "@uri", "@urid", "@yaml", "@props", "@dsv",
+];
+
 const FIELDS: &[&str] = &["a", "b", "c", "k", "é", "a_b", "x1"];
 const ZERO_ARG: &[&str] = &[
     "length", "utf8bytelength", "keys", "keys_unsorted", "values", "type", "tostring", "tonumber", "tojson", "fromjson",
@@ -243,7 +268,7 @@ impl<'a> ProgGen<'a> {
             return self.atom();
         }
         let d = depth + 1;
-        match self.rng.below(44) {
+        match self.rng.below(48) {
             0..=4 => self.atom(),
             5..=7 => format!("{} | {}", self.expr(d), self.expr(d)),
             8 => format!("{}, {}", self.expr(d), self.expr(d)),
@@ -513,6 +538,7 @@ impl<'a> ProgGen<'a> {
             38 => format!("({}) | ascii_downcase? // {}", self.expr(d), self.atom()),
             40 | 41 => self.strings_family(),
             42 | 43 => self.paths_family(),
+            44..=47 => self.census(),
             _ => format!("[{}] | {}", self.expr(d), (*self.rng.pick(ZERO_ARG))),
         }
     }
@@ -584,6 +610,43 @@ impl<'a> ProgGen<'a> {
         }
     }
 
+
+
+    /// One typed value to feed a builtin (as input or as an argument).
+    fn typed_value(&mut self) -> String {
+        match self.rng.below(12) {
+            0 | 1 => self.num(),
+            2 => (*self.rng.pick(MB_STRS)).to_string(),
+            3 => self.string(),
+            4 => (*self.rng.pick(LITERALS)).to_string(),
+            5 => (*self.rng.pick(HETERO)).to_string(),
+            6 => (*self.rng.pick(PATH_LITS)).to_string(),
+            7 => (*self.rng.pick(REGEXES)).to_string(),
+            8 => (*self.rng.pick(&["null", "true", "false", "{}", "[]", "\"\"", "."])).to_string(),
+            9 => self.path(),
+            10 => self.bounded_gen(),
+            _ => (*self.rng.pick(&["[2015,2,5,23,51,47,4,63]", "1425599507", "\"2015-03-05T23:51:47Z\"", "{\"key\":\"a\",\"value\":1}", "[[\"a\",1]]", "{\"a\":{\"b\":1}}"])).to_string(),
+        }
+    }
+
+    /// Builtin census: every builtin, every arity 0..3, typed inputs and arguments.
+    fn census(&mut self) -> String {
+        let name = *self.rng.pick(CENSUS);
+        let input = self.typed_value();
+        let call = match self.rng.weighted(&[35, 35, 22, 8]) {
+            0 => name.to_string(),
+            1 => format!("{name}({})", self.typed_value()),
+            2 => format!("{name}({}; {})", self.typed_value(), self.typed_value()),
+            _ => format!("{name}({}; {}; {})", self.typed_value(), self.typed_value(), self.typed_value()),
+        };
+        match self.rng.below(5) {
+            0 => format!("{input} | [{call}]"),
+            1 => format!("{input} | try ({call}) catch ."),
+            2 => format!("[{input} | {call}] | length"),
+            3 => format!("{input} | ({call})?"),
+            _ => format!("{input} | {call}"),
+        }
+    }
 
     /// `del` with several sibling paths mixing slices and indices over small nested arrays:
     /// deleting through one sibling changes what a later sibling's index means.
